@@ -178,8 +178,10 @@ where
                result = self.listener.accept() => {
                    match result {
                         Err(err) => {
+                            // a connection that cannot be accepted (e.g. no file descriptor left, or a
+                            // network error pending on it) must not end the server and its sessions
                             tracing::error!("error accepting connection: {}", err);
-                            return;
+                            tokio::time::sleep(std::time::Duration::from_millis(100)).await;
                         }
                         Ok((socket, addr)) => {
                             if self.filter.matches(addr.ip()) {
